@@ -1,11 +1,14 @@
 #!/bin/bash
-# usage: dump_mir.sh <repo-root> <out-file>   dumps the MIR of cel-interpreter (lib, chrono feature,
-# overflow checks on) from the given working tree, forcing a fresh rustc run every time
+# usage: dump_mir.sh <repo-root> <out-file> [interpreter|antlr]
+# dumps the MIR of cel-interpreter (lib, chrono feature) or cel-parser (antlr/) with overflow checks on
+# from the given working tree, forcing a fresh rustc run every time
 set -e
-repo=${1:-/repo}; out=${2:-/verif/.cache/mir/interpreter.mir}
+repo=${1:-/repo}; out=${2:-/verif/.cache/mir/interpreter.mir}; crate=${3:-interpreter}
 mkdir -p "$(dirname "$out")" /verif/.cache/mir-target
-cd "$repo/interpreter"
-CARGO_NET_OFFLINE=true cargo +nightly rustc --offline --lib --no-default-features --features chrono \
+cd "$repo/$crate"
+feat="--no-default-features --features chrono"
+[ "$crate" = "antlr" ] && feat=""
+CARGO_NET_OFFLINE=true cargo +nightly rustc --offline --lib $feat \
   --target-dir /verif/.cache/mir-target -- -Zunpretty=mir -C debug-assertions=off -C overflow-checks=on \
   --cfg "verif_mir_run_$(date +%s%N)" > "$out.tmp" 2> "$out.err" || { tail -20 "$out.err"; exit 1; }
 mv "$out.tmp" "$out"
